@@ -1252,6 +1252,12 @@ def cli_box(tier, seed):
     dimacs = 'c comment\np cnf 6 4\n1 -2 0\n3 0\n0\n-5 2 2 0\n'
     out.append({'kind': 'cli', 'tool': 'cnfgen', 'argv': ['dimacs', '@FILE'], 'expects': [6],
                 'rseed': 1, 'dimacs': dimacs})
+    # a DIMACS input that declares variables and has no clause at all, or none
+    # that uses the last variables
+    for text_, n_ in (('p cnf 7 0\n', 7), ('c only a header\np cnf 1 0\n', 1), ('p cnf 9 1\n1 -2 0\n', 9),
+                      ('p cnf 0 0\n', 0)):
+        out.append({'kind': 'cli', 'tool': 'cnfgen', 'argv': ['dimacs', '@FILE'], 'expects': [n_],
+                    'rseed': 1, 'dimacs': text_})
     # transformations through the command line (cnfgen only)
     bases = [(['php', 4, 3], 12), (['tseitin', 'first', 'grid', 2, 3], 7), (['or', 2, 1], 3),
              (['op', 3], 6), (['and', 0, 0], 0), (['randkcnf', 2, 9, 2], 9)]   # last: unused variables
